@@ -37,14 +37,14 @@ def check(run, tier, seed, replay=None):
         return
     dlg_replay = rsc is not None and "stages" in rsc
     scs = [] if dlg_replay else pc.table(tier) + pc.random_phases(seed, 300 if tier == "quick" else 6000) + pc.random_teardowns(seed, 100 if tier == "quick" else 1500)
-    pc.phase_check(run, "C01", tier, seed, None if dlg_replay else replay, scs, "C01Corr.judge",
+    pc.phase_check(run, "C01", tier, seed, None if dlg_replay else replay, scs, "C01Corr.judge_r",
                    lambda sc, obs: "C01 write or ownership change without permitted adoption, or adoption/refusal not carried out",
                    "exhaustive abstract adoption table (strategy x already-controller x revision relation x collisionProtection x "
                    "controller state x force x pko-label x cache visibility x order of the previous-revision list) through the real "
                    "ReconcilePhase, plus seeded random multi-object phases and teardowns with a third-party op between read and write "
                    "and one or two previous revisions (with / without remote phases, garbage collected); plus handovers from delegated "
                    "previous revisions (two and three revisions, re-created phase objects) through the real controllers, compared "
-                   "with the same handover with in-process phases", faults=True)
+                   "with the same handover with in-process phases", faults=True, fault_judge="C01Corr.judge")
     if replay and not dlg_replay:
         return
     if not replay:
